@@ -84,6 +84,8 @@ def run(chk):
     vlib.build_harness(["gentables", "mugo", "trun", "c05rw"])
     vlib.gen_tables(["rw"])
     failed = chk.prove("theories/Properties/C05.v")
+    from props import visit_tie
+    visit_tie.run(chk)
     work = os.path.join(vlib.BUILD, "c05")
     shutil.rmtree(work, ignore_errors=True)
     os.makedirs(work)
